@@ -1,0 +1,16 @@
+//go:build verif
+
+package connectconformance
+
+// Hook for the verification harnesses in /verif (build tag "verif" only):
+// lets a harness substitute the process started for a given command line, so
+// that run() can be exercised against scripted in-process peers.
+
+var verifStarterFor func(argv []string) processStarter
+
+func verifOverride(argv []string) processStarter {
+	if verifStarterFor == nil {
+		return nil
+	}
+	return verifStarterFor(argv)
+}
